@@ -4,7 +4,14 @@ Spec: {"src": "grid"|"mdg", "grid": grid spec | "mdg": mdg spec,
        "flux": {"mode": "normal"|"signs"|"divfree-proj"|"divfree-cycle", "seed": int, "pzero": float, "exp": int},
        "bc":   {"pattern": [0/1,...], "default": bool, "frac_dir": bool},
        "nc":   1..3,
-       "tr":   {"theta": float in (0,1], "steps": 1..3, "cseed": int}}
+       "tr":   {"theta": float in (0,1], "steps": 1..3, "cseed": int},
+       "reuse": null | {"flux": "same"|"rescale"|"flip"|"fresh", "fseed": int, "pattern": [0/1..], "nc": 1..3,
+                        "bc_edit": "inplace"|"replace", "via": "initialize_data"|"direct", "same_obj": bool}}
+reuse: the data dictionary first receives a discretisation with an earlier configuration (other boundary
+pattern / component count / flux: identical, rescaled with the signs kept, some signs flipped, or unrelated);
+the inputs are then changed to the configuration of the spec (bc object edited in place or replaced, through
+pp.initialize_data or by assignment in the parameter dictionary), discretize runs again into the SAME
+dictionary (same or new Upwind object) and every assertion is made on that second result.
 
 Everything the oracle needs (who is neighbour of which face, which side the normal points to) is
 read from ``g.cell_faces`` in COO form; ``cell_faces_as_dense`` / ``divergence`` are not used."""
@@ -30,7 +37,11 @@ RULE = (
     "gradient part of a random interior field (least squares on the cell graph, optionally with a random set of closed "
     "faces) or as an integer combination of fundamental cycles of the cell graph (exactly divergence-free); a "
     "Dirichlet/Neumann pattern over the boundary faces (fracture faces Neumann as in porepy's models, or included in the "
-    "pattern), or no 'bc' parameter at all; num_components 1..3. Oracle from the COO entries of cell_faces only: a face "
+    "pattern), or no 'bc' parameter at all; num_components 1..3. In 40 % of the cases the data dictionary is reused: an "
+    "earlier configuration (other boundary pattern, other component count, flux identical / rescaled with the signs "
+    "kept / some signs flipped / unrelated) is discretised first, the inputs are changed (bc object edited in place or "
+    "replaced; pp.initialize_data or assignment) and discretize runs again into the same dictionary; everything is "
+    "asserted on the second result. Oracle from the COO entries of cell_faces only: a face "
     "with non-zero flux that is interior or Dirichlet-outflow has exactly one entry 1 in the column of the cell with "
     "cell_faces[f,c]*flux_f > 0; Neumann faces and Dirichlet-inflow faces have an empty row; rhs_dir is diagonal with 1 "
     "exactly on Dirichlet-inflow faces (zero-flux Dirichlet faces: 0 or 1), rhs_neu is diagonal with cell_faces[f,c] on "
@@ -60,12 +71,17 @@ ASSUMPTIONS = [
     "without a 'bc' parameter (only generated for unfractured grids) every domain boundary face is Dirichlet "
     "('inflow no-flow, outflow open' in the docstring)",
     "the CFL limit of an explicit step is dt <= min_c V_c / (sum of outgoing fluxes of c)",
+    "a data dictionary may be re-discretised after its parameters changed (pp.initialize_data documents incremental "
+    "updates); the stored matrices then belong to the parameters present at the latest discretize call",
 ]
 REQUIRED = {"dim1": 0.02, "dim2": 0.2, "dim3": 0.2, "fracture-faces": 0.1, "flux-normal": 0.15, "flux-signs": 0.07,
             "flux-divfree-proj": 0.07, "flux-divfree-cycle": 0.07, "zeros-present": 0.2, "bc-both": 0.2,
             "dir-inflow": 0.15, "dir-outflow": 0.15, "neu-inflow": 0.15, "neu-outflow": 0.15, "nc1": 0.1, "nc2": 0.1,
             "nc3": 0.1, "transport": 0.15, "transport-circulation": 0.07, "default-bc": 0.01, "frac-dir": 0.01,
-            "boundary-zero-flux-dir": 0.05}
+            "boundary-zero-flux-dir": 0.05, "reuse": 0.2, "reuse-same-signs": 0.05, "reuse-signs-changed": 0.05,
+            "reuse-same-signs-other-bc-or-nc": 0.04, "reuse-same-signs-other-bc": 0.02, "reuse-nc-changed": 0.08,
+            "reuse-bc-changed-inplace": 0.03, "reuse-bc-changed-replace": 0.03, "reuse-via-initialize_data": 0.05,
+            "reuse-via-direct": 0.05}
 
 KW = "transport"
 
@@ -99,6 +115,17 @@ def _spec(draw, tier):
     s["tr"] = {"theta": draw(st.one_of(st.sampled_from([1.0, 0.5]),
                                        st.floats(0.01, 1.0, allow_nan=False, width=64))),
                "steps": draw(st.integers(1, 3)), "cseed": draw(st.integers(0, 2**31 - 1))}
+    # reuse of one data dictionary: an earlier discretisation with other inputs precedes the one that is checked
+    s["reuse"] = None
+    if draw(st.integers(0, 4)) < 2:
+        s["reuse"] = {"flux": draw(st.sampled_from(["same", "rescale", "rescale", "flip", "fresh"])),
+                      "fseed": draw(st.integers(0, 2**31 - 1)),
+                      "pattern": draw(st.one_of(st.sampled_from([[0], [1]]),
+                                                st.lists(st.integers(0, 1), min_size=2, max_size=9))),
+                      "nc": draw(st.integers(1, 3)),
+                      "bc_edit": draw(st.sampled_from(["inplace", "replace"])),
+                      "via": draw(st.sampled_from(["initialize_data", "direct"])),
+                      "same_obj": draw(st.booleans())}
     return s
 
 
@@ -308,24 +335,84 @@ def check(spec):
     labels.append(f"nc{nc}")
 
     # ---- porepy
-    params = {"darcy_flux": q.copy(), "num_components": nc}
-    if not bs["default"]:
-        dir_faces = np.where(is_dir)[0]
+    def make_bc(mask):
+        faces = np.where(mask)[0]
         with warnings.catch_warnings():
             warnings.simplefilter("ignore")  # "conditions on internal boundaries" (frac_dir class)
-            params["bc"] = pp.BoundaryCondition(g, dir_faces, ["dir"] * dir_faces.size)
+            return pp.BoundaryCondition(g, faces, ["dir"] * faces.size)
+
+    params = {"darcy_flux": q.copy(), "num_components": nc}
+    if not bs["default"]:
+        params["bc"] = make_bc(is_dir)
     else:
         labels.append("default-bc")
     if bs["frac_dir"] and np.any(is_dir & frac):
         labels.append("frac-dir")
-    if nc == 1 and fs["seed"] % 2 == 0:
-        params.pop("num_components")  # documented default 1
-    data = pp.initialize_data({}, KW, params)
+    ru = spec.get("reuse")
     up = pp.Upwind(KW)
+    if not ru:
+        if nc == 1 and fs["seed"] % 2 == 0:
+            params.pop("num_components")  # documented default 1
+        data = pp.initialize_data({}, KW, params)
+    else:
+        # earlier configuration, discretised into the dictionary that is then reused
+        rng = np.random.default_rng(ru["fseed"])
+        if ru["flux"] == "same":
+            q1 = q.copy()
+        elif ru["flux"] == "fresh":
+            q1 = rng.normal(size=nf)
+        else:
+            q1 = q * np.exp(rng.normal(size=nf))
+            if ru["flux"] == "flip":
+                q1 = np.where(rng.random(nf) < 0.3, -q1, q1)
+        q1 = np.where(np.isfinite(q1), q1, q)
+        params1 = {"darcy_flux": q1.copy(), "num_components": ru["nc"]}
+        if not bs["default"]:
+            is_dir1, _ = _boundary_types(g, inc, dict(bs, pattern=ru["pattern"]))
+            params1["bc"] = make_bc(is_dir1)
+        else:
+            is_dir1 = is_dir
+        data = pp.initialize_data({}, KW, params1)
+        up.discretize(g, data)
+        pd = data[pp.PARAMETERS][KW]
+        # change the inputs to the configuration of the spec
+        if not bs["default"] and ru["bc_edit"] == "inplace":
+            params["bc"] = pd["bc"]
+            params["bc"].is_dir[:] = is_dir
+            params["bc"].is_neu[:] = is_neu
+        if ru["via"] == "initialize_data":
+            pp.initialize_data(data, KW, params)
+        else:
+            if ru["bc_edit"] == "inplace":
+                pd["darcy_flux"][:] = q
+            else:
+                pd["darcy_flux"] = q.copy()
+            pd["num_components"] = nc
+            if "bc" in params:
+                pd["bc"] = params["bc"]
+        if not ru["same_obj"]:
+            up = pp.Upwind(KW)
+        same_signs = bool(np.array_equal(np.sign(q1), np.sign(q)))
+        bc_changed = bool(np.any(is_dir1 != is_dir))
+        labels.append("reuse")
+        labels.append("reuse-same-signs" if same_signs else "reuse-signs-changed")
+        if bc_changed:
+            labels.append("reuse-bc-changed-" + ru["bc_edit"])
+        if ru["nc"] != nc:
+            labels.append("reuse-nc-changed")
+        if same_signs and (bc_changed or ru["nc"] != nc):
+            labels.append("reuse-same-signs-other-bc-or-nc")
+        if same_signs and bc_changed:
+            labels.append("reuse-same-signs-other-bc")
+        labels.append("reuse-via-" + ru["via"])
     up.discretize(g, data)
     M = data[pp.DISCRETIZATION_MATRICES][KW]
     U, Rd, Rn = M[up.upwind_matrix_key], M[up.bound_transport_dir_matrix_key], M[up.bound_transport_neu_matrix_key]
     require(np.array_equal(data[pp.PARAMETERS][KW]["darcy_flux"], q), "flux-mutated", "discretize changed darcy_flux")
+    if "bc" in params:
+        bcp = data[pp.PARAMETERS][KW]["bc"]
+        require(np.array_equal(bcp.is_dir, is_dir) and np.array_equal(bcp.is_neu, is_neu), "bc-mutated",
+                "discretize changed the boundary condition object")
 
     # ---- oracle
     exp_col, d_dir, d_neu, inflow, outflow = _expected(g, inc, q, is_dir, is_neu)
